@@ -12,7 +12,7 @@ import logging
 import warnings
 
 from . import kernel
-from .devices import build_world
+from .devices import _cbname, build_world
 from .dsl import Ctx, summarize
 from .kernel import Sim, SimAbort, installed
 
@@ -126,7 +126,7 @@ class Driver:
         self.res = res
         recfg = case.get("re", {})
         self.world = build_world(sim, case.get("devices", {}))
-        self.callbacks = {cid: RecordingCallback(sim, cid, spec) for cid, spec in case.get("callbacks", {}).items()}
+        self.callbacks = {cid: RecordingCallback(sim, cid, spec) for cid, spec in sorted(case.get("callbacks", {}).items())}
         self.ctx = Ctx(sim, self.world, callbacks=self.callbacks)
         self.md = copy.deepcopy(recfg.get("md", {}))
         kwargs = {}
@@ -162,7 +162,7 @@ class Driver:
         RE.state_hook = self._state_hook
         self._recorder_token = RE.subscribe(self._recorder)
         self.ctx.suspenders = {}
-        for sid, spec in case.get("suspenders", {}).items():
+        for sid, spec in sorted(case.get("suspenders", {}).items()):
             self.ctx.suspenders[sid] = _build_suspender(self.ctx, self.world, spec)
         RE.preprocessors = [_preprocessor(self.ctx, p) for p in recfg.get("preprocessors", [])]
         self.tokens = {}  # script-level token names -> public tokens
@@ -255,6 +255,13 @@ class Driver:
             elif do == "put":
                 a = inj["args"]
                 self.world[a["signal"]].put(a["value"])
+            elif do == "trip":
+                a = inj["args"]
+                sig = self.world[a["signal"]]
+                sig.put(a["value"])
+                rel, after = a.get("release_value"), a.get("after")
+                if after is not None:
+                    sim.call_ext(after, (lambda: sig.put(rel)), "release")
             elif do == "stall":
                 sim.now += inj["args"]["dt"]
                 sim.count_fault("loop_stall")
@@ -326,6 +333,7 @@ class Driver:
             unfired=unfired,
             nmsgs=self.call_msgs,
             steps=sim.nsteps - self.call_start_step,
+            subs={n: [_cbname(f) for f in d.subs] for n, d in self.world.items() if d.subs},
         )
         return outcome
 
